@@ -124,6 +124,79 @@ theorem openSteps_embed (w : WordOracle) (np nd window : Nat) (M : Bytes) (a n :
         · cases h
     · cases h
 
+/-! ### `extend_last_command`: the last copy grows over the new input -/
+
+theorem copyBytes_add : ∀ (a b d : Nat) (out : Bytes), copyBytes (a + b) d out = copyBytes b d (copyBytes a d out) := by
+  intro a
+  induction a with
+  | zero => intro b d out; simp [copyBytes]
+  | succ a ih =>
+    intro b d out
+    rw [show a + 1 + b = (a + b) + 1 by omega]
+    simp only [copyBytes]
+    exact ih b d _
+
+/-- a command executed as an LZ77 copy at distance `D`, re-read with a copy length code `n` larger (all other fields
+equal): the decoder copies `n` more bytes from the same distance -/
+theorem decStep_extend (w : WordOracle) (np nd window : Nat) (M : Bytes) (s s1 : DecSt) (c c' : Cmd) (n : Nat)
+    (D : Int) (upd : Bool)
+    (hi : c'.insertLen = c.insertLen) (hp : c'.distPrefix = c.distPrefix) (he : c'.distExtra = c.distExtra)
+    (hl : copyLenCode c'.copyLenField = copyLenCode c.copyLenField + n)
+    (hne : s.cursor + c.insertLen ≠ M.length)
+    (hr : rfcDistance np nd s.ring (c.distPrefix % 1024) c.distExtra = some (D, upd)) (hD : 0 < D)
+    (hlz : D.toNat ≤ min (s.out ++ (M.drop s.cursor).take c.insertLen).length window)
+    (h : decStep w np nd window M s c = some s1) (hn : s1.cursor + n ≤ M.length) :
+    decStep w np nd window M s c' = some ⟨copyBytes n D.toNat s1.out, s1.ring, s1.cursor + n⟩ := by
+  unfold decStep at h ⊢
+  simp only [hi, hp, he, hl] at h ⊢
+  by_cases h1 : M.length - s.cursor = 0
+  · rw [if_pos h1] at h; cases h
+  rw [if_neg h1] at h ⊢
+  by_cases h2 : c.insertLen > M.length - s.cursor
+  · rw [if_pos h2] at h; cases h
+  rw [if_neg h2, if_neg hne] at h ⊢
+  rw [hr] at h ⊢
+  simp only [] at h ⊢
+  rw [if_neg (by omega), if_pos hlz] at h ⊢
+  by_cases h6 : s.cursor + c.insertLen + copyLenCode c.copyLenField > M.length
+  · rw [if_pos h6] at h; cases h
+  rw [if_neg h6] at h
+  simp only [Option.some.injEq] at h
+  subst h
+  simp only at hn
+  rw [if_neg (by omega)]
+  simp only [Option.some.injEq, DecSt.mk.injEq]
+  exact ⟨copyBytes_add _ _ _ _, trivial, by omega⟩
+
+theorem openSteps_snoc (w : WordOracle) (np nd window : Nat) (mb : Bytes) :
+    ∀ (xs : List Cmd) (c : Cmd) (d d' : DecSt), openSteps w np nd window mb d (xs ++ [c]) = some d' →
+      ∃ s, openSteps w np nd window mb d xs = some s ∧ openSteps w np nd window mb s [c] = some d' := by
+  intro xs
+  induction xs with
+  | nil => intro c d d' h; exact ⟨d, rfl, h⟩
+  | cons x xs ih =>
+    intro c d d' h
+    simp only [List.cons_append, openSteps] at h ⊢
+    split at h
+    · rename_i hc
+      rw [if_pos hc]
+      cases hx : decStep w np nd window mb d x with
+      | none => rw [hx] at h; cases h
+      | some d1 =>
+        rw [hx] at h
+        simp only at h ⊢
+        split at h
+        · rename_i hcur; rw [if_pos hcur]; exact ih c d1 d' h
+        · cases h
+    · cases h
+
+/-- "after `cmds`, the decoder executes `c` as an LZ77 copy at distance `D`" (`D` = the distance its symbol denotes
+under the ring of that moment, positive and within `min(produced, window)`) -/
+def LastCopy (w : WordOracle) (p : Params) (hist M : Bytes) (cache0 : List Int) (cmds : List Cmd) (c : Cmd) (D : Nat) : Prop :=
+  ∀ s, openSteps w p.npostfix p.ndirect (maxBackwardLimit p) M ⟨hist, cache0.take 4, 0⟩ cmds = some s →
+    ∃ Dz upd, rfcDistance p.npostfix p.ndirect s.ring (c.distPrefix % 1024) c.distExtra = some (Dz, upd) ∧ 0 < Dz ∧
+      Dz.toNat = D ∧ D ≤ min (s.out ++ (M.drop s.cursor).take c.insertLen).length (maxBackwardLimit p)
+
 /-- the record of the `CreateBackwardReferences` calls whose commands have been appended to the meta-block `M`
 (history `hist`, first distance cache `cache0`) so far:  `Merged … cmds c cache lil written` — commands so far, decoder
 cursor after them, current distance cache, pending `last_insert_len`, bytes of `M` searched so far -/
@@ -141,6 +214,18 @@ inductive Merged (slotOK : DictItem → Prop) (w : WordOracle) (p : Params) (Goo
       createBackwardReferences ops p numBytes position h0 cache lil numLiterals = some res →
       Merged slotOK w p Good hist M cache0 (cmds ++ res.cmds) (written + numBytes - res.lastInsertLen) res.cache
         res.lastInsertLen (written + numBytes)
+  /-- `extend_last_command` (run by `encode_data` before a call when `num_commands_ != 0 && last_insert_len_ == 0`):
+  the last command `c`, an LZ77 copy at distance `D`, is replaced by `c'` = the same command with copy length and copy
+  length code `n` larger (`n = 0`: only `cmd_prefix_` is recomputed) because the next `n` input bytes continue the copy -/
+  | extend (cmds : List Cmd) (c c' : Cmd) (cur : Nat) (cache : List Int) (n D : Nat) :
+      Merged slotOK w p Good hist M cache0 (cmds ++ [c]) cur cache 0 cur →
+      cur + n ≤ M.length →
+      c'.insertLen = c.insertLen → c'.distPrefix = c.distPrefix → c'.distExtra = c.distExtra →
+      copyLenCode c'.copyLenField = copyLenCode c.copyLenField + n → copyLen c' = copyLen c + n →
+      Good c' →
+      LastCopy w p hist M cache0 cmds c D →
+      copyBytes n D (hist ++ M.take cur) = hist ++ M.take (cur + n) →
+      Merged slotOK w p Good hist M cache0 (cmds ++ [c']) (cur + n) cache 0 (cur + n)
 
 /-- **the invariant of a merged meta-block**: after any sequence of calls the RFC decoder, started at the beginning of
 the meta-block, has executed all commands so far as open commands, stands at `written − last_insert_len`, has produced
@@ -178,6 +263,37 @@ theorem merged_inv {slotOK : DictItem → Prop} {w : WordOracle} {p : Params} {G
       rcases List.mem_append.mp hx with h1 | h2
       · exact hgood x h1
       · exact hg' x h2
+  | extend cmds c c' cur cache n D _ hle hi hp he hl hcl hg hlast hcopy ih =>
+    obtain ⟨hopen, _, _, hci, hcl4, hgood⟩ := ih
+    obtain ⟨s, hs, hc1⟩ := openSteps_snoc _ _ _ _ _ _ _ _ _ hopen
+    obtain ⟨Dz, upd, hr, hD, hDz, hlz⟩ := hlast s hs
+    simp only [openSteps] at hc1
+    split at hc1
+    · rename_i hcond
+      cases hd : decStep w p.npostfix p.ndirect (maxBackwardLimit p) M s c with
+      | none => rw [hd] at hc1; cases hc1
+      | some s1 =>
+        rw [hd] at hc1
+        simp only at hc1
+        split at hc1
+        · rename_i hcur
+          simp only [Option.some.injEq] at hc1
+          subst hc1
+          have hx := decStep_extend w p.npostfix p.ndirect (maxBackwardLimit p) M s _ c c' n Dz upd hi hp he hl hcond.1 hr hD
+            (by rw [hDz]; exact hlz) hd (by simpa using hle)
+          simp only [hDz, hcopy] at hx
+          refine ⟨?_, by omega, hle, hci, hcl4, ?_⟩
+          · rw [openSteps_append _ _ _ _ _ _ _ _ _ hs]
+            simp only [openSteps, hi]
+            rw [if_pos ⟨hcond.1, by omega⟩, hx]
+            simp only
+            rw [if_pos (by simp only at hcur; omega)]
+          · intro x hx'
+            rcases List.mem_append.mp hx' with h1 | h2
+            · exact hgood x (List.mem_append.mpr (Or.inl h1))
+            · simp only [List.mem_singleton] at h2; subst h2; exact hg
+        · cases hc1
+    · cases hc1
 
 /-- **closing a merged meta-block**: once all of `M` has been searched, the command array closed by the insert-only
 command satisfies `lockstep`, every command is `Good`, and the RFC decoder replays it to `hist ++ M` -/
